@@ -1256,7 +1256,9 @@ class MyPyAstVisitor:
         if is_internal(name) and not (name.startswith("__") and name.endswith("__")):
             return False
 
-        if isinstance(parent, Class) and (name == "__init__" or not is_internal(name)):
+        # Members that are not private (dunder names included) are as public as their class, which can be public
+        # through a reexport only
+        if isinstance(parent, Class):
             return parent.is_public
 
         # The slicing is necessary so __init__ functions are not excluded (already handled in the first condition).
